@@ -214,3 +214,32 @@ def term_of_local(body, local, depth=8, _seen=None):
         return eval_rv(env, None, d["rv"])
     name = callee_name(d)
     return ("call", name, tuple(eval_op(env, None, a) for a in d["args"])) if name else ("unknown", "indirect call")
+
+
+VIEW_CALLS = ("deref", "deref_mut", "as_ref", "as_mut", "as_str", "as_bytes", "borrow", "borrow_mut", "as_slice", "as_mut_str", "clone",
+              "as_deref", "into", "from", "to_owned", "to_string", "into_boxed_str", "into_string", "from_utf8_unchecked")
+
+
+def strip_views(t):
+    """drop calls that only change the view / ownership of a string (deref, as_ref, as_str, clone, into, ...)"""
+    while isinstance(t, tuple) and t[0] == "call" and t[1] and len(t[2]) == 1 and t[1].rsplit("::", 1)[-1].split("::<")[0] in VIEW_CALLS:
+        t = t[2][0]
+    return t
+
+
+def raw_source(body, op, depth=12):
+    """(leaf term, [transforming calls]) of an operand: the value it views, and every call on the way that is not a mere
+    view/ownership change (e.g. to_ascii_lowercase, trim, replace)."""
+    from .facts import op_local as _ol
+    l = _ol(op)
+    if l is None:
+        return eval_op({}, None, op), []
+    t = term_of_local(body, l, depth)
+    transforms = []
+    while True:
+        t2 = strip_views(t)
+        if isinstance(t2, tuple) and t2[0] == "call" and t2[2]:
+            transforms.append(t2[1])
+            t = t2[2][0]
+            continue
+        return t2, transforms
